@@ -14,5 +14,15 @@ char* strstr(const char* h, const char* n)
         }
         return 0;
 }
+/* strnlen as a plain loop: CBMC's library model returns a value the symbolic execution cannot fold to a constant even
+ * for concrete strings, which makes every later buffer position symbolic */
+size_t strnlen(const char* s, size_t maxlen)
+{
+        size_t i;
+        for(i = 0; i < maxlen; i++){
+                if(s[i] == 0){ return i; }
+        }
+        return maxlen;
+}
 #endif
 #endif
